@@ -35,6 +35,10 @@ DEFAULT_PROFILE = dict(
     p_empty=0.06,            # types without any member (size 0, alignment = pointer size unless declared)
     p_zst_field=0.12,        # a by-value field of a zero-sized user type, when one is visible
     p_zst_miss=0.3,          # ... placed one byte off its alignment (near-miss: must be rejected)
+    p_doc_interleave=0.25,   # attribute lines between / in front of the doc lines of an item (the order carries no meaning)
+    p_nested_ptr_arg=0.12,   # pointer-to-pointer parameter / return types, mixed constness
+    p_fn_name_reuse=0.0,     # an impl function named like a function of another type (clash renaming across bases)
+    p_extern_only_module=0.0,  # a module that declares nothing but extern values
     p_big_discr=0.0,         # an enum discriminant literal in 2^63 .. 2^64-1 (pyxis reads literals as isize: a parse error today)
     # -- options of the execution oracle (tools/exec_oracle.py); off by default, and when off no random draw changes --
     addr_pool=None,          # (base, stride, count): every #[address] of an impl function, #[singleton] and extern value
@@ -125,6 +129,14 @@ class Gen:
                  for _ in range(n)]
         return "".join("%s///%s\n" % (indent, l) for l in lines), lines
 
+    def interleave(self, docs, attr_text):
+        """the doc lines and the attribute lines of one item: the attributes possibly in front of or between the docs"""
+        if not docs or not attr_text or self.rng.random() >= self.p["p_doc_interleave"]:
+            return docs + attr_text
+        d, a = docs.splitlines(True), attr_text.splitlines(True)
+        k = self.rng.randrange(len(d))
+        return "".join(d[:k] + a + d[k:])
+
     def vis(self):
         return "pub " if self.chance("p_pub") else ""
 
@@ -199,6 +211,9 @@ class Gen:
             return rng.choice(INT_PRIMS + ["f32", "bool"])
         if k < 0.85:
             inner = rng.choice(["void", "u8", "i32"] + [self.ref_name(mod, t) for t in self.visible_types(mod)[:4]])
+            if rng.random() < self.p["p_nested_ptr_arg"]:
+                q = rng.choice(["const", "mut"])
+                return "*%s *%s %s" % (q, "mut" if q == "const" or rng.random() < 0.3 else "const", inner)
             return "*%s %s" % (rng.choice(["const", "mut"]), inner)
         users = [t for t in self.visible_types(mod) if t.kind in ("type", "enum")]
         if users:
@@ -247,13 +262,14 @@ class Gen:
             pub = rng.random() < self.p["p_fn_pub"]
         if self.p.get("private_static_fns") and not vfunc and not has_self:
             pub = False
-        text = docs
         rng.shuffle(attrs)       # the order of attributes carries no meaning
+        atext = ""
         if attrs:
             if rng.random() < 0.5 or len(attrs) == 1:
-                text += "    #[%s]\n" % ", ".join(attrs)
+                atext = "    #[%s]\n" % ", ".join(attrs)
             else:
-                text += "".join("    #[%s]\n" % a for a in attrs)
+                atext = "".join("    #[%s]\n" % a for a in attrs)
+        text = self.interleave(docs, atext)
         text += "    %sfn %s(%s)%s" % ("pub " if pub else "", name, ", ".join(args), " -> %s" % ret if ret else "")
         desc = dict(name=name, pub=pub, selfkind=selfkind, args=names, ret=ret, cc=cc or ("thiscall" if has_self else "system"),
                     cc_explicit=cc, doc=doc_lines, index=index, address=address, text=text)
@@ -416,9 +432,7 @@ class Gen:
             if default_idx == i or (miss == "two defaults" and i == (default_idx + 1) % len(cases)):
                 pre = "#[default] "
             body.append("    %s%s%s" % (pre, cn, rhs))
-        text = docs
-        if attrs:
-            text += "#[%s]\n" % ", ".join(attrs)
+        text = self.interleave(docs, "#[%s]\n" % ", ".join(attrs) if attrs else "")
         text += "%senum %s: %s {\n%s%s\n}" % ("pub " if pub else "", name, base, ",\n".join(body),
                                                "," if rng.random() < 0.5 else "")
         if miss:
@@ -532,6 +546,16 @@ class Gen:
                 if bi > 0 and b.has_vftable and rng.random() < 0.5:
                     pass
                 bases.append(b)
+        forced_names = None
+        if cands and not empty and rng.random() < self.p["p_fn_name_reuse"] * 0.5:
+            # the clash pattern: the bases of an existing type M (under M's own field names) followed by M itself --
+            # what M renamed to <field>_<name> meets the same <field>_<name> once more
+            ms_ = [t_ for t_ in cands if len(t_.bases) >= 2 and all(b_ in cands for b_ in t_.bases)
+                   and not (packed and (t_.align > 1 or any(b_.align > 1 for b_ in t_.bases)))]
+            if ms_:
+                m_ = rng.choice(ms_)
+                bases = list(m_.bases) + [m_]
+                forced_names = [n_ for n_, _ in self.expect["types"]["::".join(m_.path)]["base_fields"]] + [self.fresh("b")]
         inherit = None
         if bases and bases[0].has_vftable:
             inherit = bases[0].vfuncs
@@ -589,7 +613,7 @@ class Gen:
                     miss_here = "address off alignment by one"
                 else:
                     self.miss_done = False
-            line = docs
+            line = ""
             if explicit and off != natural and rng.random() < 0.4 and off > natural:
                 # write the gap as an unknown<N> field instead of an address
                 stmts.append("    _: unknown<%s>" % int_lit(rng, off - natural, self.chance("p_int_forms")))
@@ -601,8 +625,10 @@ class Gen:
             if explicit:
                 al.append("address(%s)" % int_lit(rng, off, self.chance("p_int_forms")))
             rng.shuffle(al)
+            atext = ""
             if al:
-                line += "    #[%s]\n" % ", ".join(al) if rng.random() < 0.6 else "".join("    #[%s]\n" % x for x in al)
+                atext = "    #[%s]\n" % ", ".join(al) if rng.random() < 0.6 else "".join("    #[%s]\n" % x for x in al)
+            line = self.interleave(docs, atext)
             line += "    %s%s: %s" % (vis_, fname, ttext)
             stmts.append(line)
             if not (zero_array and size == 0):
@@ -612,8 +638,15 @@ class Gen:
             fields.append((fname, off, size, ttext, explicit, zero_array and size == 0))
             cur = off + size
 
-        for b in bases:
+        for bi_, b in enumerate(bases):
             fname = self.fresh("b")
+            if forced_names is not None:
+                fname = forced_names[bi_]
+            elif rng.random() < self.p["p_fn_name_reuse"]:
+                # the same field name as a base field of another type (renamed inherited functions are called <field>_<name>)
+                seen_ = sorted(set(n_ for t_ in self.expect["types"].values() for n_, _ in t_["base_fields"]) - set(x[0] for x in base_fields))
+                if seen_:
+                    fname = rng.choice(seen_)
             docs, dl = self.doc("    ")
             place(fname, self.ref_name(mod, b), b.size, b.align, ["base"], self.vis(), docs, doc_lines=dl)
             base_fields.append((fname, "::".join(b.path)))
@@ -662,7 +695,13 @@ class Gen:
                 extra = 0   # padding would change the single-region alignment rule
             total = total + extra
             size_attr = total
-        if self.want_miss():
+        if align_attr is not None and not packed and nregions != 1 and max_align > ptr and miss_here is None \
+                and self.p["miss"] > 0 and self.expect["miss"] is None and rng.random() < 0.05:
+            # without the attribute the alignment is the pointer size: below what a member needs
+            align_attr = None
+            miss_here = "default alignment below a member's alignment"
+            self.miss_done = True
+        elif self.want_miss():
             k = rng.random()
             if k < 0.4 and natural_end > 0:
                 size_attr = natural_end - 1
@@ -697,10 +736,11 @@ class Gen:
             attrs.append("singleton(%s)" % int_lit(rng, singleton, True))
         docs, doc_lines = self.doc()
         pub = self.chance("p_pub")
-        text = docs
         rng.shuffle(attrs)
+        atext = ""
         if attrs:
-            text += "#[%s]\n" % ", ".join(attrs) if rng.random() < 0.6 else "".join("#[%s]\n" % a for a in attrs)
+            atext = "#[%s]\n" % ", ".join(attrs) if rng.random() < 0.6 else "".join("#[%s]\n" % a for a in attrs)
+        text = self.interleave(docs, atext)
         if not stmts and rng.random() < 0.5:
             text += "%stype %s;" % ("pub " if pub else "", name)
         else:
@@ -715,6 +755,10 @@ class Gen:
             taken = set(d["name"] for d in (vslots or []) if d) | set(assoc)
             for i in range(self.r(self.p["impl_fns"])):
                 fname = self.fresh("m")
+                others = sorted(set(n for t_ in self.types if t_.kind == "type" for n in (t_.assoc or [])) - taken)
+                if others and rng.random() < self.p["p_fn_name_reuse"]:
+                    fname = rng.choice(others)
+                taken.add(fname)
                 addr = self.pool_addr(rng.choice([0, 0x10, 0x401000, 2**31, 2**32 - 1, rng.randint(1, 2**40)]))
                 if self.want_miss():
                     addr = None
@@ -773,7 +817,11 @@ class Gen:
             mods.append([self.fresh("mod")])
         # items in dependency order, spread over the modules
         plan = []
-        for m in mods:
+        extern_only = set()
+        for mi, m in enumerate(mods):
+            if mi > 0 and self.chance("p_extern_only_module"):
+                extern_only.add(tuple(m))        # nothing but extern values (their types live in other modules)
+                continue
             plan += [("extern", m)] * self.r(self.p["externs"])
             plan += [("enum", m)] * self.r(self.p["enums"])
             plan += [("type", m)] * self.r(self.p["types"])
@@ -786,7 +834,7 @@ class Gen:
             else:
                 self.gen_type(m)
         for m in mods:
-            for _ in range(self.r(self.p["extern_values"])):
+            for _ in range(max(self.r(self.p["extern_values"]), 1 if tuple(m) in extern_only else 0)):
                 self.gen_extern_value(m)
         files = {}
         for m in mods:
@@ -801,12 +849,22 @@ class Gen:
             uses = self.mod_uses.get(tuple(m), [])
             body = "".join("use %s;\n" % u for u in uses)
             pro = epi = None
+            pro_seq = epi_seq = None
             backs = ""
             if self.chance("p_backend"):
                 k = rng.random()
                 pro = "pub const PRO_%s: u32 = %d;" % (m[-1].upper(), rng.randint(0, 9))
                 epi = "pub fn epi_%s() {}" % m[-1]
-                if k < 0.33:
+                if rng.random() < 0.3:
+                    pro += " // trailing note"       # the text ends in a line comment: whatever follows must start on a new line
+                if rng.random() < 0.25:
+                    # several statements of one kind in one braced block: emitted in source order
+                    pro2 = "pub const PRO2_%s: u32 = %d;" % (m[-1].upper(), rng.randint(0, 9))
+                    epi2 = "pub fn epi2_%s() {}" % m[-1]
+                    backs += 'backend rust {\n    prologue "%s";\n    prologue "%s";\n    epilogue "%s";\n    epilogue "%s";\n}\n' % (pro, pro2, epi2, epi)
+                    pro_seq = ["PRO_" + m[-1].upper(), "PRO2_" + m[-1].upper()]
+                    epi_seq = ["epi2_" + m[-1], "epi_" + m[-1]]
+                elif k < 0.33:
                     backs += 'backend rust prologue "%s";\nbackend rust epilogue "%s";\n' % (pro, epi)
                 elif k < 0.66:
                     backs += 'backend rust {\n    prologue r#"\n%s\n"#;\n    epilogue "%s";\n}\n' % (pro, epi)
@@ -814,7 +872,7 @@ class Gen:
                     backs += 'backend rust prologue "%s";\nbackend cpp prologue "#include <x>";\nbackend rust { epilogue "%s"; }\n' % (pro, epi)
             text = head + body + backs + "\n".join(items) + "\n"
             files["/".join(m) + ".pyxis"] = text
-            self.expect.setdefault("modules", {})["/".join(m)] = dict(doc=mdoc, pro=pro, epi=epi)
+            self.expect.setdefault("modules", {})["/".join(m)] = dict(doc=mdoc, pro=pro, epi=epi, pro_seq=pro_seq, epi_seq=epi_seq)
         return files, self.expect
 
 
